@@ -764,4 +764,19 @@ def mergeAll [BEq κ] (f : Option (β → β → Out β)) : List (κ × β) → 
 def merge [BEq κ] (f : Option (β → β → Out β)) (dicts : List (List (κ × β))) : Out (List (κ × β)) :=
   mergeAll f [] dicts
 
+/-- `join` with a bytes separator (lib.rs:4612): the same `started` protocol, but every piece is
+converted on the way (`disp` = iterate the piece and turn each element into a byte; a piece that
+is not iterable or an element that is not a byte raises) -/
+def joinGoE (joiner : List γ) (disp : α → Out (List γ)) : Bool → List γ → List α → Out (List γ)
+  | _, acc, [] => .ok acc
+  | started, acc, arg :: it =>
+    let acc := if started then acc ++ joiner else acc
+    match disp arg with
+    | .ok piece => joinGoE joiner disp true (acc ++ piece) it
+    | .throw => .throw
+    | .panic => .panic
+
+def joinE (joiner : List γ) (disp : α → Out (List γ)) (it : List α) : Out (List γ) :=
+  joinGoE joiner disp false [] it
+
 end Noulith.SeqLib
